@@ -305,6 +305,115 @@ async fn publisher_recovers_t(addr: SocketAddr, certs: &Certs, bo: BackoffStrate
 }
 
 
+/// A publisher that publishes in bursts (`feed()` × n + `flush()`, or `send_all`), so that it meets the dead connection
+/// with more than the 8 KiB its framed writer buffers: it must re-establish itself like any other, and what it
+/// publishes after that must arrive.
+async fn burst_publisher_recovers(addr: SocketAddr, certs: &Certs, bo: BackoffStrategy, outages: usize, id: u64, use_send_all: bool) -> std::result::Result<u64, V> {
+    use futures::stream;
+    let inc = |e: String| V("INCONCLUSIVE".into(), e);
+    let topic = format!("/c12burst/top{}", id);
+    let cs = lib_client(&addr.to_string(), certs, None).await.map_err(|e| inc(e.to_string()))?;
+    let mut sub = cs.subscriber(&topic).with_decoder(StringCodec).open().await.map_err(|e| inc(e.to_string()))?;
+    let cp = lib_client(&addr.to_string(), certs, Some(bo)).await.map_err(|e| inc(e.to_string()))?;
+    let mut publ = cp.publisher(&topic).with_encoder(StringCodec).open().await.map_err(|e| inc(e.to_string()))?;
+    let filler = "x".repeat(4096);
+    let mut seq = 0u64;
+    let mut mk = |tag: &str, seq: &mut u64| -> String {
+        *seq += 1;
+        format!("{}-{}|{}", tag, seq, filler)
+    };
+    // drains the subscriber until `want` arrives
+    async fn until(sub: &mut (impl futures::Stream<Item = selium::std::errors::Result<String>> + Unpin), want: &str, within: Duration) -> bool {
+        let t0 = Instant::now();
+        while t0.elapsed() < within {
+            match tokio::time::timeout(Duration::from_millis(300), sub.next()).await {
+                Ok(Some(Ok(s))) if s.split('|').next() == Some(want) => return true,
+                Ok(Some(Ok(_))) | Err(_) => {}
+                _ => return false,
+            }
+        }
+        false
+    }
+    async fn burst<P>(publ: &mut P, items: Vec<String>, use_send_all: bool) -> std::result::Result<(), String>
+    where
+        P: futures::Sink<String, Error = SeliumError> + Unpin,
+    {
+        if use_send_all {
+            let mut st = stream::iter(items.into_iter().map(Ok::<String, SeliumError>));
+            publ.send_all(&mut st).await.map_err(|e| e.to_string())
+        } else {
+            for it in items {
+                publ.feed(it).await.map_err(|e| e.to_string())?;
+            }
+            publ.flush().await.map_err(|e| e.to_string())
+        }
+    }
+    // establish
+    let mut est = false;
+    for _ in 0..60 {
+        let it = mk("est", &mut seq);
+        let key = it.split('|').next().unwrap().to_string();
+        publ.send(it).await.map_err(|e| inc(format!("initial send: {e}")))?;
+        if until(&mut sub, &key, Duration::from_millis(300)).await {
+            est = true;
+            break;
+        }
+    }
+    if !est {
+        return Err(inc("precondition not reached: nothing flowed before the first cut".into()));
+    }
+    let mut delivered = 0u64;
+    for o in 0..outages {
+        // a burst on the healthy connection
+        let items: Vec<String> = (0..6).map(|_| mk("pre", &mut seq)).collect();
+        let last = items.last().unwrap().split('|').next().unwrap().to_string();
+        burst(&mut publ, items, use_send_all).await.map_err(|e| V("publisher/send-failed-while-connected".into(), format!("outage {}: burst on a healthy connection failed: {}", o, e)))?;
+        if !until(&mut sub, &last, Duration::from_secs(10)).await {
+            return Err(V("publisher/lost-while-connected".into(), format!("outage {}: a burst published on a healthy connection did not arrive", o)));
+        }
+        cut(&cp).await;
+        // the burst that meets the dead connection may lose its items and may even fail; the ones after it must not
+        let t_cut = Instant::now();
+        let mut recovered = false;
+        let mut last_err = String::new();
+        for attempt in 0..40 {
+            let items: Vec<String> = (0..6).map(|_| mk("cut", &mut seq)).collect();
+            match tokio::time::timeout(Duration::from_secs(30), burst(&mut publ, items, use_send_all)).await {
+                Ok(Ok(())) if attempt > 0 || t_cut.elapsed() > Duration::from_millis(1) => {
+                    recovered = true;
+                    break;
+                }
+                Ok(Ok(())) => {}
+                Ok(Err(e)) => {
+                    if e.contains("Too many") {
+                        return Err(V("publisher/gave-up-although-server-reachable/burst".into(), format!("outage #{}: burst #{} after the cut reported too-many-retries although the server was reachable", o + 1, attempt + 1)));
+                    }
+                    last_err = e;
+                    tokio::time::sleep(Duration::from_millis(100)).await;
+                }
+                Err(_) => return Err(V("publisher/hangs-after-cut/burst".into(), format!("outage #{}: a burst did not return within 30 s after the connection was cut", o + 1))),
+            }
+            if t_cut.elapsed() > Duration::from_secs(20) {
+                break;
+            }
+        }
+        if !recovered {
+            return Err(V(
+                "publisher/not-recovered/burst".into(),
+                format!("outage #{} (of {}): for 20 s after the cut every burst ({}) failed, last with {:?}, although the server was reachable all the time and the retry budget was never used up", o + 1, outages, if use_send_all { "send_all of 6 × 4 KiB" } else { "6 × feed(4 KiB) + flush()" }, last_err),
+            ));
+        }
+        let items: Vec<String> = (0..6).map(|_| mk("post", &mut seq)).collect();
+        let last = items.last().unwrap().split('|').next().unwrap().to_string();
+        burst(&mut publ, items, use_send_all).await.map_err(|e| V("publisher/error-after-recovery/burst".into(), format!("outage #{}: burst after recovery failed: {}", o + 1, e)))?;
+        if !until(&mut sub, &last, Duration::from_secs(12)).await {
+            return Err(V("publisher/lost-after-recovery/burst".into(), format!("outage #{}: a burst published after the stream had recovered never reached the subscriber", o + 1)));
+        }
+        delivered += 6;
+    }
+    Ok(delivered)
+}
+
 /// publisher with batching (+ compression) across outages: items in flight at a cut may be lost, but once the
 /// stream is back a steady flow of numbered items must reach the subscriber as a gap-free, ordered run
 async fn batched_publisher_recovers(addr: SocketAddr, certs: &Certs, bo: BackoffStrategy, outages: usize, id: u64) -> std::result::Result<u64, V> {
@@ -662,6 +771,24 @@ async fn requestor_recovers_t(addr: SocketAddr, certs: &Certs, bo: BackoffStrate
 }
 
 
+/// what the test replier answers: "get" → a 4 KiB document, "put" → a short acknowledgement, anything else → an echo
+fn c14_reply_for(req: &[u8]) -> Vec<u8> {
+    let text = String::from_utf8_lossy(req);
+    let mut parts = text.splitn(3, '|');
+    let id = parts.next().unwrap_or("");
+    match parts.next() {
+        Some("get") => {
+            let mut v = format!("doc-for-{}|", id).into_bytes();
+            while v.len() < 4096 {
+                v.extend_from_slice(b"lorem ipsum dolor sit amet ");
+            }
+            v
+        }
+        Some("put") => format!("stored-{}-{}", id, req.len()).into_bytes(),
+        _ => req.to_vec(),
+    }
+}
+
 /// Request/reply with compression on both legs (library Requestor and library Replier) across connection losses of the
 /// requestor: what the handler receives and what request() returns must be the exact bytes, also for the call that is
 /// re-sent after the stream was re-established.
@@ -684,7 +811,7 @@ pub async fn compressed_requestor_recovers(addr: SocketAddr, certs: &Certs, bo: 
             let s3 = s2.clone();
             async move {
                 s3.lock().unwrap().push(req.clone());
-                Ok::<Vec<u8>, std::convert::Infallible>(req)
+                Ok::<Vec<u8>, std::convert::Infallible>(c14_reply_for(&req))
             }
         })
         .open()
@@ -704,14 +831,22 @@ pub async fn compressed_requestor_recovers(addr: SocketAddr, certs: &Certs, bo: 
         .await
         .map_err(|e| inc(format!("open requestor: {e}")))?;
     let mut rng = crate::common::Rng::new(id ^ 0xC14);
+    // request and reply sizes vary independently: tiny request → large reply ("get"), large request → tiny reply
+    // ("put"), tiny ↔ tiny ("ping"), large ↔ large (echo)
     let mut payload = |n: u64, rng: &mut crate::common::Rng| -> Vec<u8> {
-        let mut v = format!("call-{}|", n).into_bytes();
         let words = ["selium ", "topic ", "0000000000", "message "];
-        let target = 200 + rng.below(4000) as usize;
-        while v.len() < target {
-            v.extend_from_slice(rng.pick(&words).as_bytes());
+        match n % 4 {
+            0 => format!("call-{}|get", n).into_bytes(),
+            1 => format!("call-{}|ping", n).into_bytes(),
+            k => {
+                let mut v = format!("call-{}|{}|", n, if k == 2 { "put" } else { "echo" }).into_bytes();
+                let target = 200 + rng.below(4000) as usize;
+                while v.len() < target {
+                    v.extend_from_slice(rng.pick(&words).as_bytes());
+                }
+                v
+            }
         }
-        v
     };
     let mut n = 0u64;
     let mut est = false;
@@ -719,7 +854,7 @@ pub async fn compressed_requestor_recovers(addr: SocketAddr, certs: &Certs, bo: 
         n += 1;
         let p = payload(n, &mut rng);
         if let Ok(v) = rq.request(p.clone()).await {
-            if v == p {
+            if v == c14_reply_for(&p) {
                 est = true;
                 break;
             }
@@ -733,6 +868,26 @@ pub async fn compressed_requestor_recovers(addr: SocketAddr, certs: &Certs, bo: 
         return Err(inc("precondition not reached: no request was answered before the first cut".into()));
     }
     let mut ok = 0u64;
+    // every request/reply size combination on the healthy connection first
+    for _ in 0..8 {
+        n += 1;
+        let p = payload(n, &mut rng);
+        match tokio::time::timeout(Duration::from_secs(40), rq.request(p.clone())).await {
+            Ok(Ok(v)) if v == c14_reply_for(&p) => ok += 1,
+            Ok(Ok(v)) => {
+                listen.abort();
+                return Err(("wire-composition/reply-differs".into(), format!("{}: a {}-byte request on a healthy connection returned Ok with {} bytes that are not the reply to it (expected {} bytes)", algo, p.len(), v.len(), c14_reply_for(&p).len())));
+            }
+            Ok(Err(e)) => {
+                listen.abort();
+                return Err(("wire-composition/call-failed".into(), format!("{}: a {}-byte request on a healthy connection failed: {}", algo, p.len(), e)));
+            }
+            Err(_) => {
+                listen.abort();
+                return Err(("requestor/hangs".into(), format!("{}: request() did not return within 40 s on a healthy connection", algo)));
+            }
+        }
+    }
     for o in 0..outages {
         cut(&cr).await;
         for k in 0..5 {
@@ -743,14 +898,14 @@ pub async fn compressed_requestor_recovers(addr: SocketAddr, certs: &Certs, bo: 
                     listen.abort();
                     return Err(("requestor/hangs-after-cut".into(), format!("{}: outage #{}: request() did not return within 40 s", algo, o + 1)));
                 }
-                Ok(Ok(v)) if v == p => ok += 1,
+                Ok(Ok(v)) if v == c14_reply_for(&p) => ok += 1,
                 Ok(Ok(v)) => {
                     listen.abort();
                     let handler_saw = seen.lock().unwrap().last().cloned().unwrap_or_default();
                     return Err((
                         "wire-composition/value-differs-after-recovery".into(),
                         format!(
-                            "{}: outage #{}: call #{} after the cut sent {} bytes, request() returned Ok with {} bytes that differ; the replier's handler received {} bytes starting {}",
+                            "{}: outage #{}: call #{} after the cut sent {} bytes, request() returned Ok with {} bytes that are not the reply to it; the replier's handler received {} bytes starting {}",
                             algo,
                             o + 1,
                             k + 1,
@@ -1685,6 +1840,16 @@ pub fn run(rep: &mut StageReport, tier: &str, _seed: u64) {
                 Err(_) => Err(V("INCONCLUSIVE".into(), "watchdog: scenario did not finish in 300 s".into())),
             };
             out.push(("recovery/requestor-compressed".to_string(), cfg, r));
+        }
+        // publishers that publish in bursts larger than the writer's buffer
+        for (k, use_send_all) in [false, true].into_iter().enumerate() {
+            let bo = BackoffStrategy::constant().with_max_attempts(5).with_step(Duration::from_millis(40));
+            let cfg = json!({"role": "publisher", "style": if use_send_all { "send_all of 6 × 4 KiB" } else { "6 × feed(4 KiB) + flush()" }, "backoff": "constant 40 ms", "max_attempts": 5, "outages": 2});
+            let r = match tokio::time::timeout(Duration::from_secs(400), burst_publisher_recovers(server.addr, &certs.0, bo, 2, 90 + k as u64, use_send_all)).await {
+                Ok(r) => r,
+                Err(_) => Err(V("INCONCLUSIVE".into(), "watchdog: burst publisher scenario did not finish in 400 s".into())),
+            };
+            out.push(("recovery/publisher-bursts".to_string(), cfg, r));
         }
         // publisher whose caller wraps each send() in a timeout shorter than the backoff delay
         {
